@@ -559,7 +559,10 @@ class _Run:
             close = bool(tape.draw(3, "send_from-close") == 2) if mode else False
             scfg.append(dict(mode=mode, items=[Tok((f"s{s}", k)) for k in range(n)], close=close,
                              cancel_after_send=None))
-        rcfg = [dict(mode=tape.weighted([3, 3, 2, 2, 2, 2], "recv-mode")) for _ in range(n_recv)]
+        # the two library-internal consumers are exercised only while they exist under these names
+        w_send = 2 if callable(getattr(ServiceStub, "_send_messages", None)) else 0
+        w_ss = 2 if (w_send and callable(getattr(ServiceStub, "_stream_stream", None))) else 0
+        rcfg = [dict(mode=tape.weighted([3, 3, 2, 2, w_send, w_ss], "recv-mode")) for _ in range(n_recv)]
         closer = dict(when=tape.draw(5, "closer"))       # 0 idiomatic, 1..3 arbitrary, 4 never
         canc = tape.draw(4, "canceller")                  # 0 none, 1-2 at a drawn point, 3 right after a send
         ccfg = None
@@ -724,14 +727,24 @@ class _Run:
                 rule = "C12.R6" if self._had_fault() else "C12.R2"
                 raise Violation(rule, sig, f"send of {it} returned at #{s}, before close #{close_seq}, "
                                            f"but nobody ever received it")
-        # R3
-        last: Dict[str, int] = {}
-        order = sorted((lst[0][0], it) for it, lst in recvd.items())
-        for s, it in order:
-            snd, k = it
-            if last.get(snd, -1) > k:
-                raise Violation("C12.R3", "reordered", f"{snd}: item {k} received after item {last[snd]}")
-            last[snd] = k
+        # R3: per receiver, a sender's items arrive in the order sent.  With several receivers the order
+        # of their *return events* is not what the statement fixes (an implementation that hands items
+        # to waiting receivers directly lets a later receiver return first), so the global order is
+        # only judged when a single receiver took everything.
+        by_recv: Dict[str, List[Tuple[int, Any]]] = collections.defaultdict(list)
+        for it, lst in recvd.items():
+            by_recv[lst[0][1]].append((lst[0][0], it))
+        views = dict(by_recv)
+        if len(by_recv) == 1:
+            views["(all)"] = [x for v in by_recv.values() for x in v]
+        for who, lst in views.items():
+            last: Dict[str, int] = {}
+            for s, it in sorted(lst):
+                snd, k = it
+                if last.get(snd, -1) > k:
+                    raise Violation("C12.R3", "reordered",
+                                    f"{snd}: item {k} received after item {last[snd]} (receiver {who})")
+                last[snd] = k
 
     def _had_fault(self) -> bool:
         return any(k == "fault" or (k == "raise" and d == "TimeoutError") for (_, _, k, _, d) in self.events)
